@@ -296,15 +296,28 @@ Qed.
 
 (** The sampling set handed to pyunigen is [1..support] (for [support >= 1];
     with no [c ind] line it is every declared variable). *)
-Theorem save_cnf_sampler_input cls n :
+Theorem save_cnf_sampler_input solve cls n :
   (forall c, In c cls -> nonzero c) -> 1 <= n -> nonempty_clauses (rev cls) <> [] ->
-  sampler_input (save_cnf_lines cls (Some n)) = Some (Some (nonempty_clauses (rev cls), support_set n)).
+  solve (nonempty_clauses (rev cls)) = true ->
+  sampler_input solve (save_cnf_lines cls (Some n))
+  = Some (Some (nonempty_clauses (rev cls), support_set n)).
 Proof.
-  intros H Hn Hne. unfold sampler_input. rewrite (save_cnf_parse_unigen cls n H).
+  intros H Hn Hne Hsat. unfold sampler_input. rewrite (save_cnf_parse_unigen cls n H).
   destruct (nonempty_clauses (rev cls)) as [|c r] eqn:E; [contradiction|].
+  rewrite Hsat.
   destruct (support_set n) as [|x xs] eqn:S; [|reflexivity].
   exfalso. assert (In 1 (support_set n)) by (apply support_set_spec; lia).
   rewrite S in H0. contradiction.
+Qed.
+
+(** If the pre-check says unsatisfiable, nothing is sampled. *)
+Theorem save_cnf_sampler_input_unsat solve cls n :
+  (forall c, In c cls -> nonzero c) ->
+  solve (nonempty_clauses (rev cls)) = false ->
+  sampler_input solve (save_cnf_lines cls (Some n)) = Some None.
+Proof.
+  intros H Hsat. unfold sampler_input. rewrite (save_cnf_parse_unigen cls n H).
+  destruct (nonempty_clauses (rev cls)) as [|c r] eqn:E; [reflexivity|]. now rewrite Hsat.
 Qed.
 
 (** An empty clause is lost by both parsers: an unsatisfiable formula is read
